@@ -10,8 +10,8 @@ from common import CACHE, REPO
 def run(prop, obligations, tier, seed):
     for o in obligations:
         t0 = time.time()
-        runs = 60 if tier == 'quick' else 600
-        steps = 30 if tier == 'quick' else 40
+        runs = 600 if tier == 'quick' else 4000
+        steps = 40 if tier == 'quick' else 50
         env = dict(os.environ)
         env.update({'RUSTFLAGS': '--cfg teos_verif_twin', 'CARGO_NET_OFFLINE': 'true', 'VERIF_SEED': str(seed),
                     'VERIF_TWIN_RUNS': str(runs), 'VERIF_TWIN_STEPS': str(steps), 'CARGO_TERM_COLOR': 'never'})
